@@ -53,12 +53,29 @@ def _run_idx(i):
     return _run_one(_JOBS[i])
 
 
+class _Budget(Exception):
+    pass
+
+
+def _alarm(signum, frame):
+    raise _Budget()
+
+
+BUDGET_S = 600
+
+
 def _run_one(job):
+    import signal
     name, fn, args = job
     r = Result(name)
     t0 = time.time()
+    signal.signal(signal.SIGALRM, _alarm)
+    signal.alarm(BUDGET_S)
     try:
-        info = fn(*args) or {}
+        try:
+            info = fn(*args) or {}
+        finally:
+            signal.alarm(0)
         r.status = "proved"
         for k, v in info.items():
             setattr(r, k, v)
@@ -77,6 +94,9 @@ def _run_one(job):
     except (eir.ExecError, Inconclusive) as e:
         r.status = "inconclusive"
         r.detail = "%s" % (e,)
+    except _Budget:
+        r.status = "inconclusive"
+        r.detail = "wall-clock budget of %d s exhausted" % BUDGET_S
     except Exception as e:
         r.status = "inconclusive"
         r.detail = "internal error: %s\n%s" % (e, traceback.format_exc()[-1500:])
@@ -114,6 +134,8 @@ class Check:
         self.pid = pid
         self.level = level
         self.tier = self.args.tier
+        global BUDGET_S
+        BUDGET_S = 600 if self.tier == "quick" else 3600
         self.seed = int(os.environ.get("VERIF_SEED", "0"))
         self.jobs = []
         self.results = []
@@ -154,11 +176,19 @@ class Check:
         for r in self.results:
             if r.status == "violated":
                 if self.replayer is not None and r.replayed is None:
+                    import signal
+                    signal.signal(signal.SIGALRM, _alarm)
+                    signal.alarm(300)
                     try:
                         r.replayed = self.replayer(r)
+                    except _Budget:
+                        r.replayed = None
+                        r.detail += " [replay timed out]"
                     except Exception as e:
                         r.replayed = None
                         r.detail += " [replay error: %s]" % e
+                    finally:
+                        signal.alarm(0)
                 if r.finding_key in known:
                     known_hit.append(r)
                     lines.append("KNOWN-FINDING: property=%s %s" % (self.pid, known[r.finding_key].split("key=", 1)[1]))
